@@ -67,6 +67,7 @@ var funcTargets = []funcTarget{
 	{pkg: "gws", recv: "Conn", name: "compressData", conds: true},
 	{pkg: "gws", recv: "limitedReader", name: "Read", skeleton: true, state: []string{"f_N"}},
 	{pkg: "gws", recv: "workerQueue", name: "getJob", skeleton: true, state: []string{"f_curConcurrency"}},
+	{pkg: "gws", recv: "ConcurrentMap", name: "GetSharding", exprOf: "index"},
 	{pkg: "internal", name: "MaskXOR", exprOf: "key64"},
 	{pkg: "internal", name: "MaskXOR", exprOf: "idx"},
 	{pkg: "internal", name: "MaskByByte", exprOf: "idx"},
@@ -734,6 +735,12 @@ func genFuncs(pkgs []*packages.Package) string {
 						ty := fn.Recv.List[0].Type
 						if s, ok := ty.(*ast.StarExpr); ok {
 							ty = s.X
+						}
+						switch g := ty.(type) { // a generic receiver: T[K] / T[K, V]
+						case *ast.IndexExpr:
+							ty = g.X
+						case *ast.IndexListExpr:
+							ty = g.X
 						}
 						if id, ok := ty.(*ast.Ident); ok {
 							rn = id.Name
